@@ -213,6 +213,11 @@ class Randomizer(RandIF):
                     active_randsets.append(rs)
                     for f in rs.all_fields():
                         f.dispose()
+                        if hasattr(f.parent, "sum_expr_btor"):
+                            # Element of a list: the diagnostics use a solver 
+                            # instance of their own
+                            f.parent.sum_expr_btor = None
+                            f.parent.product_expr_btor = None
                         
                 if self.solve_fail_debug > 0:
                     raise SolveFailure(
